@@ -260,34 +260,37 @@ class Check:
                 os.remove(prog)
             p = subprocess.Popen([self.gen_bin(), "exec", "--in", cases_path, "--out", out_path, "--from", str(frm)],
                                  stdout=subprocess.DEVNULL, stderr=subprocess.DEVNULL, env=env)
-            last, last_t = None, time.time()
-            status = None
+            # the progress file ("<position> <case id|done>") is rewritten for every case: a read may see it
+            # empty or half written, so only successfully parsed positions count
+            def read_progress():
+                try:
+                    t = open(prog).read().split()
+                    if len(t) >= 2:
+                        return int(t[0]), t[1] == "done"
+                except (FileNotFoundError, ValueError):
+                    pass
+                return None
+            last_pos, last_t = frm - 1, time.time()
+            done, status = False, None
             while True:
                 try:
                     p.wait(timeout=0.5)
                     status = "exit"
-                    break
                 except subprocess.TimeoutExpired:
                     pass
-                try:
-                    cur = open(prog).read()
-                except FileNotFoundError:
-                    cur = None
-                if cur != last:
-                    last, last_t = cur, time.time()
-                elif time.time() - last_t > hang_s:
+                pr = read_progress()
+                if pr is not None:
+                    if pr[0] != last_pos:
+                        last_pos, last_t = pr[0], time.time()
+                    done = done or pr[1]
+                if status == "exit":
+                    break
+                if time.time() - last_t > hang_s:
                     p.kill()
                     p.wait()
                     status = "hang"
                     break
-            done = False
-            try:
-                t = open(prog).read().split()
-                if len(t) > 1 and t[1] == "done":
-                    done = True
-                pos = int(t[0])
-            except Exception:
-                pos = frm
+            pos = max(last_pos, frm)
             if done and status == "exit" and p.returncode == 0:
                 break
             # case at position `pos` hung or aborted the process
